@@ -86,7 +86,7 @@ fn run_reader(rt: &tokio::runtime::Runtime, chunks: Vec<Vec<u8>>) -> Result<Vec<
             let mut out = vec![];
             while let Some(m) = s.next().await {
                 out.push(m);
-                if out.len() > 10_000 {
+                if out.len() > 100_000 {
                     break;
                 }
             }
@@ -123,19 +123,32 @@ fn run_reader_tcp(rt: &tokio::runtime::Runtime, chunks: Vec<Vec<u8>>) -> Option<
                 }
                 let _ = server.shutdown().await;
             });
-            let s = next_msg(DataSource::Tcp(client)).await;
-            pin_mut!(s);
-            let mut out = vec![];
-            while let Some(m) = s.next().await {
-                out.push(m);
-                if out.len() > 10_000 {
-                    break;
+            // the reader (and with it the client socket) is dropped before the writer is awaited, so that a reader that
+            // stops early can never leave the writer blocked on a full socket buffer
+            let out = {
+                let s = next_msg(DataSource::Tcp(client)).await;
+                pin_mut!(s);
+                let mut out = vec![];
+                while let Some(m) = s.next().await {
+                    out.push(m);
+                    if out.len() > 100_000 {
+                        break;
+                    }
                 }
-            }
-            let _ = writer.await;
+                out
+            };
+            finish_peer(writer).await;
             out
         })
     }))
+}
+
+/// wait for the feeding task, but never for ever: it is aborted when it does not end within the watchdog
+async fn finish_peer(h: tokio::task::JoinHandle<()>) {
+    let a = h.abort_handle();
+    if tokio::time::timeout(std::time::Duration::from_secs(20), h).await.is_err() {
+        a.abort();
+    }
 }
 
 /// ... and loopback UDP, where every datagram is exactly one read. A UDP stream has no end: collection stops when
@@ -158,16 +171,19 @@ fn run_reader_udp(rt: &tokio::runtime::Runtime, chunks: Vec<Vec<u8>>) -> Option<
                     }
                 }
             });
-            let s = next_msg(DataSource::Udp(rx)).await;
-            pin_mut!(s);
-            let mut out = vec![];
-            while let Ok(Some(m)) = tokio::time::timeout(std::time::Duration::from_millis(150), s.next()).await {
-                out.push(m);
-                if out.len() > 10_000 {
-                    break;
+            let out = {
+                let s = next_msg(DataSource::Udp(rx)).await;
+                pin_mut!(s);
+                let mut out = vec![];
+                while let Ok(Some(m)) = tokio::time::timeout(std::time::Duration::from_millis(150), s.next()).await {
+                    out.push(m);
+                    if out.len() > 100_000 {
+                        break;
+                    }
                 }
-            }
-            let _ = writer.await;
+                out
+            };
+            finish_peer(writer).await;
             out
         })
     }))
@@ -180,7 +196,7 @@ fn run_reader_ws(rt: &tokio::runtime::Runtime, chunks: Vec<Vec<u8>>) -> Option<R
     use tokio_tungstenite::tungstenite::protocol::Message as WsMessage;
     let listener = rt.block_on(async { tokio::net::TcpListener::bind("127.0.0.1:0").await.ok() })?;
     let addr = listener.local_addr().ok()?;
-    Some(guarded(|| {
+    guarded(|| {
         rt.block_on(async {
             let server = tokio::spawn(async move {
                 if let Ok((sock, _)) = listener.accept().await {
@@ -197,22 +213,33 @@ fn run_reader_ws(rt: &tokio::runtime::Runtime, chunks: Vec<Vec<u8>>) -> Option<R
                     }
                 }
             });
-            let mut out = vec![];
-            if let Ok((ws, _)) = tokio_tungstenite::connect_async(format!("ws://{addr}/feed")).await {
-                let (_, rx) = ws.split();
-                let s = next_msg(DataSource::Websocket(rx)).await;
-                pin_mut!(s);
-                while let Some(m) = s.next().await {
-                    out.push(m);
-                    if out.len() > 10_000 {
-                        break;
+            // a connection that cannot be made (no ephemeral port left on a busy machine) is "arm unavailable", never
+            // a verdict, and never a wait on a server nobody will connect to
+            let conn = tokio::time::timeout(std::time::Duration::from_secs(20), tokio_tungstenite::connect_async(format!("ws://{addr}/feed"))).await;
+            let out = match conn {
+                Ok(Ok((ws, _))) => {
+                    let (_, rx) = ws.split();
+                    let s = next_msg(DataSource::Websocket(rx)).await;
+                    pin_mut!(s);
+                    let mut out = vec![];
+                    while let Some(m) = s.next().await {
+                        out.push(m);
+                        if out.len() > 100_000 {
+                            break;
+                        }
                     }
+                    Some(out)
                 }
-            }
-            let _ = server.await;
+                _ => {
+                    server.abort();
+                    None
+                }
+            };
+            finish_peer(server).await;
             out
         })
-    }))
+    })
+    .transpose()
 }
 
 fn split(raw: &[u8], cuts: &[usize]) -> Vec<Vec<u8>> {
